@@ -22,6 +22,7 @@
 #include <AIToolbox/MDP/Algorithms/ValueIteration.hpp>
 #include <AIToolbox/MDP/Policies/Policy.hpp>
 #include <AIToolbox/MDP/Model.hpp>
+#include <AIToolbox/MDP/SparseModel.hpp>
 #include <boost/multi_array.hpp>
 #include <algorithm>
 
@@ -274,7 +275,68 @@ static void case_tr(Rng & rng, TR L, const std::string & tier, const Params * fo
 }
 
 // ---------------------------------------------------------------- PrioritizedSweeping
-static void case_ps(Rng & rng, const std::string & tier) {
+// A model that satisfies IsModel but NOT IsModelEigen: PrioritizedSweeping then takes its generic branch
+// (explicit loop over s1 with getTransitionProbability / getExpectedReward).
+struct PlainModel {
+    const M::Model & m;
+    size_t getS() const { return m.getS(); }
+    size_t getA() const { return m.getA(); }
+    double getDiscount() const { return m.getDiscount(); }
+    bool isTerminal(size_t s) const { return m.isTerminal(s); }
+    std::tuple<size_t, double> sampleSR(size_t s, size_t a) const { return m.sampleSR(s, a); }
+    double getTransitionProbability(size_t s, size_t a, size_t s1) const { return m.getTransitionProbability(s, a, s1); }
+    double getExpectedReward(size_t s, size_t a, size_t s1) const { return m.getExpectedReward(s, a, s1); }
+};
+static_assert(M::IsModel<PlainModel> && !M::IsModelEigen<PlainModel>);
+
+template <class Mod>
+static void run_ps(Rng & rng, const Mod & mod, const M::Model & model, const char * kind, bool stepwise) {
+    size_t S = model.getS(), A = model.getA();
+    double theta = std::ldexp(1.0, -40);
+    M::PrioritizedSweeping<Mod> ps(mod, theta, stepwise ? 1 : 64);
+    // explicit backups: a random order over all pairs (sometimes with repeats, rarely incomplete)
+    std::vector<std::pair<size_t, size_t>> order;
+    for (size_t s = 0; s < S; ++s) for (size_t a = 0; a < A; ++a) order.emplace_back(s, a);
+    for (size_t i = order.size(); i > 1; --i) std::swap(order[i - 1], order[rng.below(i)]);
+    if (rng.coin(1, 3)) for (int i = 0; i < 3; ++i) order.push_back(order[rng.below(order.size())]);
+    if (rng.coin(1, 10)) order.pop_back();
+    Line l; l << "C11" << (stepwise ? "psw" : "ps") << S << A << model.getDiscount() << theta;
+    for (size_t s = 0; s < S; ++s) for (size_t a = 0; a < A; ++a) for (size_t s1 = 0; s1 < S; ++s1) l << model.getTransitionProbability(s, a, s1);
+    putTable(l, model.getRewardFunction());
+    auto snapshot = [&](Line & o) {
+        putTable(o, ps.getQFunction());
+        for (size_t s = 0; s < S; ++s) o << ps.getValueFunction().values[s];
+        o << (size_t)ps.getQueueLength();
+    };
+    if (!stepwise) {
+        bool interleave = rng.coin();
+        for (auto [s, a] : order) { ps.stepUpdateQ(s, a); if (interleave && rng.coin()) ps.batchUpdateQ(); }
+        long guard = 0;
+        while (ps.getQueueLength() > 0 && guard++ < 200000) ps.batchUpdateQ();
+        M::ValueIteration vi(2000, 0.0);   // tolerance 0 = run the whole horizon; 0.875^2000 is far below one ulp
+        auto [bound, vf, viQ] = vi(model);
+        (void)bound; (void)vf;
+        l << (size_t)order.size();
+        for (auto [s, a] : order) l << s << a;
+        l << "|";
+        snapshot(l);
+        putTable(l, viQ);
+    } else {
+        // every public call is one event: `1 s a` = stepUpdateQ(s,a), `0` = batchUpdateQ() with N = 1; state after each
+        std::vector<std::string> ev;
+        size_t nev = 0;
+        Line body;
+        auto doStep = [&](size_t s, size_t a) { ps.stepUpdateQ(s, a); body << 1 << s << a; snapshot(body); ++nev; };
+        auto doPop = [&]() { ps.batchUpdateQ(); body << 0; snapshot(body); ++nev; };
+        for (auto [s, a] : order) { doStep(s, a); while (rng.coin(1, 3) && ps.getQueueLength() > 0 && nev < 400) doPop(); }
+        while (ps.getQueueLength() > 0 && nev < 400) doPop();
+        l << nev << body.os.str();
+    }
+    l.emit();
+    std::printf("#stat ps-%s%s 1\n", kind, stepwise ? "-stepwise" : "");
+}
+
+static void case_ps(Rng & rng, const std::string & tier, int kind = -1, int stepwise = -1) {
     size_t S = (size_t)rng.range(2, tier == "thorough" ? 5 : 4), A = (size_t)rng.range(1, 3);
     double g = pickD(rng, {0.5, 0.75, 0.875, 0.5});
     boost::multi_array<double, 3> T(boost::extents[S][A][S]), R(boost::extents[S][A][S]);
@@ -286,33 +348,11 @@ static void case_ps(Rng & rng, const std::string & tier) {
         for (size_t s1 = 0; s1 < S; ++s1) { T[s][a][s1] = k[s1] / 8.0; R[s][a][s1] = (double)rng.range(-8, 8) / 4; }
     }
     M::Model model(S, A, T, R, g);
-    double theta = std::ldexp(1.0, -40);
-    M::PrioritizedSweeping<M::Model> ps(model, theta, 64);
-    // explicit backups: a random order over all pairs (sometimes with repeats, rarely incomplete)
-    std::vector<std::pair<size_t, size_t>> order;
-    for (size_t s = 0; s < S; ++s) for (size_t a = 0; a < A; ++a) order.emplace_back(s, a);
-    for (size_t i = order.size(); i > 1; --i) std::swap(order[i - 1], order[rng.below(i)]);
-    if (rng.coin(1, 3)) for (int i = 0; i < 3; ++i) order.push_back(order[rng.below(order.size())]);
-    if (rng.coin(1, 10)) order.pop_back();
-    bool interleave = rng.coin();
-    for (auto [s, a] : order) { ps.stepUpdateQ(s, a); if (interleave && rng.coin()) ps.batchUpdateQ(); }
-    long guard = 0;
-    while (ps.getQueueLength() > 0 && guard++ < 200000) ps.batchUpdateQ();
-    M::ValueIteration vi(2000, 0.0);   // tolerance 0 = run the whole horizon; 0.875^2000 is far below one ulp
-    auto [bound, vf, viQ] = vi(model);
-    (void)bound; (void)vf;
-    Line l; l << "C11" << "ps" << S << A << g << theta;
-    for (size_t s = 0; s < S; ++s) for (size_t a = 0; a < A; ++a) for (size_t s1 = 0; s1 < S; ++s1) l << model.getTransitionProbability(s, a, s1);
-    putTable(l, model.getRewardFunction());
-    l << (size_t)order.size();
-    for (auto [s, a] : order) l << s << a;
-    l << "|";
-    putTable(l, ps.getQFunction());
-    for (size_t s = 0; s < S; ++s) l << ps.getValueFunction().values[s];
-    l << (size_t)ps.getQueueLength();
-    putTable(l, viQ);
-    l.emit();
-    std::printf("#stat ps 1\n");
+    if (kind < 0) kind = (int)rng.below(3);
+    bool sw = stepwise < 0 ? rng.coin(1, 3) : stepwise != 0;
+    if (kind == 0) run_ps(rng, model, model, "dense", sw);
+    else if (kind == 1) { M::SparseModel sm(model); run_ps(rng, sm, model, "sparse", sw); }
+    else { PlainModel pm{model}; run_ps(rng, pm, model, "generic", sw); }
 }
 
 // ---------------------------------------------------------------- DynaQ batch
@@ -361,7 +401,7 @@ void verif::verif_case(Rng & rng, long idx, const std::string & tier) {
             case 4: { p.lam = 0.0; p.tol = 0.0; case_tr(rng, CRETRACE, tier, &p); break; }
             case 5: { p.lam = 1.0; p.g = 1.0; p.tol = 1.0; case_tr(rng, CQL, tier, &p); break; }   // cut-off exactly one
             case 6: { p.lam = 0.5; p.g = 0.5; p.tol = 0.0625; case_tr(rng, ETB, tier, &p); break; }
-            case 7: case_ps(rng, tier); break;
+            case 7: case_ps(rng, tier, 2, 0); break;
             // witnesses of the known finding C11-trace-cutoff-above-one (setTolerance is unguarded)
             case 8: { p.tol = 2.0; p.maxSteps = 3; case_tr(rng, SARSAL_, tier, &p, false); break; }
             case 9: { p.tol = 2.0; p.maxSteps = 3; case_tr(rng, CQL, tier, &p, false); break; }
